@@ -79,8 +79,14 @@ def run(rng, tier, res=None, want=("knnpred", "select")):
                 "Xv": Xv.tolist(), "Yv": Yv.tolist(), "max_k": max_k, "min_k": min_k}
         Xb, Yb, Xvb = X.tobytes(), Y.tobytes(), Xv.tobytes()
         crit = []
+        exp_tape = []
         try:
             if unsup:
+                import opfython.subgraphs.knn as KN
+
+                def exp_wrap(a, _t=exp_tape):
+                    v = real_np.exp(a); _t.append((float(a), float(v))); return v
+                KN.np = Proxy(real_np, exp=exp_wrap)
                 o = US.UnsupervisedOPF(min_k=min_k, max_k=max_k, distance=metric)
                 orig_cut = o._normalized_cut
                 state_before_final = {}
@@ -96,7 +102,10 @@ def run(rng, tier, res=None, want=("knnpred", "select")):
                         v = inj[len(crit)]
                     crit.append((k, v)); return v
                 o._normalized_cut = cut_wrap
-                o.fit(X, Y)
+                try:
+                    o.fit(X, Y)
+                finally:
+                    KN.np = real_np
             else:
                 o = KS.KNNSupervisedOPF(max_k=max_k, distance=metric)
                 accs = []
@@ -109,11 +118,19 @@ def run(rng, tier, res=None, want=("knnpred", "select")):
                     if inject:
                         v = inj[len(crit)]
                     crit.append(v); return v
+                import opfython.subgraphs.knn as KN
+
+                def exp_wrap2(a, _t=exp_tape):
+                    v = real_np.exp(a); _t.append((float(a), float(v))); return v
                 KS.g = Proxy(G, opf_accuracy=acc_wrap)
+                KN.np = Proxy(real_np, exp=exp_wrap2)
+                KS.np = Proxy(real_np, exp=exp_wrap2)
                 try:
                     o.fit(X, Y, Xv, Yv)
                 finally:
                     KS.g = G
+                    KN.np = real_np
+                    KS.np = real_np
         except Exception as ex:
             viol("C16", f"fit raised {type(ex).__name__}: {ex}", meta)
             continue
@@ -126,6 +143,29 @@ def run(rng, tier, res=None, want=("knnpred", "select")):
         if any(a.density != a.density for a in nd):
             res.hit("skipped_nan_density")   # duplicates at rank k make the unsupervised density bound 0 (0/0): outside every property
             continue
+        # ---------------- whole-pipeline model of UnsupervisedOPF.fit (criterion not injected) ----------------
+        if "select" in want and unsup and not inject:
+            dmb = [fb(fn(X[i], X[j])) for i in range(n) for j in range(n)]
+            tp = [v for a_, r_ in exp_tape for v in (fb(a_), fb(r_))]
+            from s_knn import lists_str
+            line = f"unsfit {n} {min_k} {max_k} {ints(dmb)} {len(exp_tape)} {ints(tp)}"
+            adjl = [[int(a) for a in nd_.adjacency] for nd_ in nd]
+            ob = (f"{best_k} | {ints(fb(v) for _, v in crit)} | {lists_str(adjl)} | {ints(nd_.n_plateaus for nd_ in nd)} | "
+                  f"{ints(nd_.pred for nd_ in nd)} | {ints(nd_.root for nd_ in nd)} | {ints(nd_.cluster_label for nd_ in nd)} | "
+                  f"{ints(fb(nd_.cost) for nd_ in nd)} | {ints(fb(nd_.density) for nd_ in nd)} | {ints(sg.idx_nodes)} | {sg.n_clusters} | "
+                  f"{fb(sg.constant)} {fb(sg.min_density)} {fb(sg.max_density)} | {fb(sg.density)} | 1 0")
+            lines.append(" ".join(line.split())); obs.append(ob); metas.append(meta)
+            res.add_case(lines[-1], nontrivial=(max_k > min_k)); res.hit("unsfit_pipeline")
+        if "select" in want and (not unsup) and not inject:
+            dmb = [fb(fn(X[i], X[j])) for i in range(n) for j in range(n)]
+            qmb = [fb(fn(Xv[q], X[j])) for q in range(nv) for j in range(n)]
+            tp = [v for a_, r_ in exp_tape for v in (fb(a_), fb(r_))]
+            line = (f"knnfit {n} {nv} {max_k} {ints(Y)} {ints(Yv)} {ints(dmb)} {ints(qmb)} {len(exp_tape)} {ints(tp)}")
+            ob = (f"{best_k} | {ints(fb(v) for v in crit)} | {ints(nd_.pred for nd_ in nd)} | {ints(nd_.root for nd_ in nd)} | "
+                  f"{ints(nd_.predicted_label for nd_ in nd)} | {ints(fb(nd_.cost) for nd_ in nd)} | {ints(fb(nd_.density) for nd_ in nd)} | "
+                  f"{ints(sg.idx_nodes)} | {fb(sg.constant)} {fb(sg.min_density)} {fb(sg.max_density)} | {fb(sg.density)} | 1 0")
+            lines.append(" ".join(line.split())); obs.append(ob); metas.append(meta)
+            res.add_case(lines[-1], nontrivial=(max_k > 1)); res.hit("knnfit_pipeline")
         # ---------------- select (C16) ----------------
         if "select" in want:
             if unsup:
